@@ -9,8 +9,12 @@ use mls_rs::client_builder::MlsConfig;
 use mls_rs::external_client::builder::MlsConfig as ExtConfig;
 use mls_rs::external_client::{ExternalClient, ExternalGroup, ExternalReceivedMessage, ExternalSnapshot};
 use mls_rs::identity::basic::BasicIdentityProvider;
+use mls_rs::group::{CommitEffect, Node, Sender};
 use mls_rs::mls_rs_codec::MlsEncode;
+use mls_rs::verif::insider::InsiderEdit;
+use mls_rs::{MlsMessage, MlsMessageDescription, WireFormat};
 use mls_rs_crypto_rustcrypto::RustCryptoProvider;
+use std::collections::{BTreeMap, BTreeSet};
 
 fn ext_client(jitter: Option<u64>, cache: bool) -> ExternalClient<impl ExtConfig> {
     // `cache == false`: the application keeps the proposals and inserts them by hand (ExternalGroup::insert_proposal_from_message)
@@ -30,9 +34,22 @@ struct Obs<E: ExtConfig> {
     lost: bool,
     /// built with cache_proposals(false): proposals are inserted by the tap
     manual: bool,
+    /// (message index, snapshot of the observer's group before that commit was delivered): the probes work on groups loaded from it
+    pre: Option<(usize, ExternalSnapshot)>,
+    /// kinds of the proposals the last commit applied, as this observer reported them
+    applied: Vec<&'static str>,
 }
 
-pub struct ObsTap<'q, E: ExtConfig> {
+/// what the observer has to do with a probe message
+#[derive(Clone, Copy, PartialEq)]
+enum Expect {
+    Reject,
+    Accept,
+    /// not decidable without the group's secrets (confirmation tag, ciphertexts): recorded only
+    Either,
+}
+
+pub struct ObsTap<'q, E: ExtConfig, C: MlsConfig> {
     obs: Vec<Obs<E>>,
     mk: &'q dyn Fn(Option<u64>, bool) -> ExternalClient<E>,
     qa: &'q mut QA,
@@ -43,17 +60,34 @@ pub struct ObsTap<'q, E: ExtConfig> {
     pub compared: u64,
     pub restored: u64,
     pub deliveries: u64,
+    /// generator of the probes: the history's own generator is left alone, so that histories and rows stay what they were
+    xrng: Rng,
+    /// the members' groups as of the last commit: the next committer re-signs edited versions of its commit with them
+    prev: BTreeMap<String, mls_rs::Group<C>>,
+    /// public handshake messages of this history (indices into `w.msgs`)
+    old_hs: Vec<usize>,
+    pub probes: u64,
+    pub cover: BTreeSet<String>,
 }
 
 fn fail(what: String) -> Failure {
     Failure { prop: "C16", what, at_op: 0 }
 }
 
-impl<'q, C: MlsConfig, E: ExtConfig> Tap<C> for ObsTap<'q, E> {
+impl<'q, C: MlsConfig, E: ExtConfig> Tap<C> for ObsTap<'q, E, C> {
     fn broadcast(&mut self, w: &World<C>, mi: usize, rng: &mut Rng) -> Vec<Failure> {
         let mut out = vec![];
         let m = &w.msgs[mi];
         let mut to_send = vec![mi];
+        if (m.kind == "commit" || m.kind == "proposal") && m.msg.wire_format() == WireFormat::PublicMessage {
+            self.old_hs.push(mi);
+        }
+        if m.kind == "commit" {
+            for o in self.obs.iter_mut().filter(|o| !o.lost) {
+                o.pre = Some((mi, o.group.snapshot()));
+                o.applied.clear();
+            }
+        }
         if m.kind == "app" {
             self.old_apps.push(mi);
             // also replay some older ciphertexts to probe the window
@@ -87,6 +121,11 @@ impl<'q, C: MlsConfig, E: ExtConfig> Tap<C> for ObsTap<'q, E> {
                                 }
                             }
                             "proposal" | "commit" => {
+                                if let Ok(ExternalReceivedMessage::Commit(d)) = &res {
+                                    if let CommitEffect::NewEpoch(n) = &d.effect {
+                                        o.applied = n.applied_proposals.iter().map(|p| proposal_kind(&p.proposal)).collect();
+                                    }
+                                }
                                 if ok && kind == "proposal" && o.manual {
                                     // the application-side cache of an observer that does not cache on its own: either the
                                     // description returned by the observer itself, or the raw message
@@ -229,7 +268,7 @@ impl<'q, C: MlsConfig, E: ExtConfig> Tap<C> for ObsTap<'q, E> {
             match g.group_info_message_allowing_ext_commit(true) {
                 Ok(gi) => match std::panic::catch_unwind(std::panic::AssertUnwindSafe(|| client.observe_group(gi, None, None))) {
                     Ok(Ok(group)) => {
-                        self.obs.push(Obs { client, group, jitter, lost: false, manual });
+                        self.obs.push(Obs { client, group, jitter, lost: false, manual, pre: None, applied: vec![] });
                         self.attached += 1;
                     }
                     Ok(Err(e)) => out.push(fail(format!("observer cannot start from the members' GroupInfo of epoch {epoch}: {}", err_class(&e)))),
@@ -237,6 +276,206 @@ impl<'q, C: MlsConfig, E: ExtConfig> Tap<C> for ObsTap<'q, E> {
                 },
                 Err(e) => out.push(fail(format!("member cannot export group info: {}", err_class(&e)))),
             }
+        }
+        out.extend(self.probe(w, active, cmi));
+        // the members as they are now: whoever commits next re-signs with its copy
+        self.prev.clear();
+        for &i in active {
+            self.prev.insert(w.members[i].setup.name.clone(), w.group(i).clone());
+        }
+        out
+    }
+}
+
+fn unchanged<E: ExtConfig>(a: &ExternalGroup<E>, b: &ExternalGroup<E>) -> bool {
+    a.group_context().mls_encode_to_vec().ok() == b.group_context().mls_encode_to_vec().ok()
+        && a.export_tree().ok() == b.export_tree().ok()
+        && a.get_cached_proposals().len() == b.get_cached_proposals().len()
+}
+
+/// One bit of the signature of a public handshake message flipped.  The message ends with the signature, the confirmation tag
+/// (commits) and the membership tag (member senders); the tags are `nh` bytes long.
+fn flip_signature_bit(rng: &mut Rng, m: &MlsMessage, nh: usize, is_commit: bool) -> Option<MlsMessage> {
+    let b = m.to_bytes().ok()?;
+    let member = matches!(m.description(), MlsMessageDescription::PublicProtocolMessage { sender: Sender::Member(_), .. });
+    let tag = nh + if nh < 64 { 1 } else { 2 };
+    let tail = tag * (is_commit as usize + member as usize);
+    if b.len() < tail + 64 {
+        return None;
+    }
+    // every signature of the seven suites is longer than 32 bytes
+    let pos = b.len() - tail - 1 - rng.below(32) as usize;
+    let mut b2 = b.clone();
+    b2[pos] ^= 1 << rng.below(8);
+    let m2 = MlsMessage::from_bytes(&b2).ok()?;
+    (m2.to_bytes().ok()? == b2).then_some(m2)
+}
+
+impl<'q, E: ExtConfig, C: MlsConfig> ObsTap<'q, E, C> {
+    /// Deliveries to COPIES of the observers' groups (the observers themselves and the row stream are not touched): what the
+    /// committer of `cmi` could have sent instead (its commit re-signed after a structural edit), a flipped signature, messages
+    /// of earlier epochs.  Whatever members refuse on grounds that need no secret must be refused, nothing may panic, and a
+    /// refusal leaves the copy as it was.
+    fn probe(&mut self, w: &World<C>, active: &[usize], cmi: usize) -> Vec<Failure> {
+        let mut out = vec![];
+        let Some(&a) = active.first() else { return out };
+        let ga = w.group(a);
+        let msg = &w.msgs[cmi];
+        if msg.msg.wire_format() != WireFormat::PublicMessage {
+            return out;
+        }
+        let new_ctx = ga.context().mls_encode_to_vec().unwrap();
+        let new_tree = ga.export_tree().to_bytes().unwrap();
+        let nh = ga.context().tree_hash.len();
+        let mut chosen: Vec<usize> = (0..self.obs.len()).filter(|&i| !self.obs[i].lost && matches!(&self.obs[i].pre, Some((m, _)) if *m == cmi)).collect();
+        while chosen.len() > 2 {
+            let k = self.xrng.below(chosen.len() as u64) as usize;
+            chosen.remove(k);
+        }
+        if chosen.is_empty() {
+            return out;
+        }
+        // ---- messages for an observer that has not seen the commit yet ------------------------------------------------------
+        let mut vars: Vec<(String, MlsMessage, Expect)> = vec![];
+        let member_sender = matches!(msg.msg.description(), MlsMessageDescription::PublicProtocolMessage { sender: Sender::Member(_), .. });
+        let pc = self.prev.get(&msg.from).filter(|g| g.current_epoch() == msg.epoch && member_sender);
+        if let Some(pc) = pc {
+            let cleaf = pc.current_member_index();
+            let has_path = msg.msg.commit_path_leaf_node().is_some();
+            // number of update-path nodes: the nodes of the committer's direct path that are not filtered out
+            let plen = if has_path { ga.verif_filtered_direct_path(cleaf).map(|f| f.iter().filter(|x| !**x).count()).unwrap_or(0) } else { 0 };
+            // HPKE key of another leaf of the new tree (a member that stays, or one the commit adds)
+            let foreign: Option<Vec<u8>> = ga.export_tree().nodes().iter().enumerate().find_map(|(i, n)| match n {
+                Some(Node::Leaf(l)) if i != 2 * cleaf as usize => Some(l.public_key.to_vec()),
+                _ => None,
+            });
+            let own_old: Option<Vec<u8>> = match pc.export_tree().nodes().get(2 * cleaf as usize) {
+                Some(Some(Node::Leaf(l))) => Some(l.public_key.to_vec()),
+                _ => None,
+            };
+            let fresh: Vec<u8> = {
+                use mls_rs::{CipherSuite, CipherSuiteProvider, CryptoProvider};
+                RustCryptoProvider::default().cipher_suite_provider(CipherSuite::from(1u16)).unwrap().kem_generate().unwrap().1.to_vec()
+            };
+            let mut edits: Vec<(String, InsiderEdit, Expect)> = vec![("resign-only".into(), InsiderEdit::Nothing, Expect::Accept), ("confirmation-tag".into(), InsiderEdit::SetConfirmationTag(self.xrng.bytes(nh)), Expect::Either)];
+            if has_path {
+                // the observer reports what the genuine commit applied: the path may be omitted only over Adds / PSKs
+                let applied = &self.obs[chosen[0]].applied;
+                let required = applied.is_empty() || applied.iter().any(|k| ["update", "remove", "extinit", "gce"].contains(k));
+                let optional = !applied.is_empty() && applied.iter().all(|k| ["add", "psk"].contains(k));
+                edits.push(("remove-path".into(), InsiderEdit::RemovePath, if required { Expect::Reject } else { Expect::Either }));
+                self.cover.insert(format!("insider:remove-path:path-required={}:optional={}", required as u8, optional as u8));
+                if let Some(k) = &foreign {
+                    edits.push(("leaf-foreign-key-stale-signature".into(), InsiderEdit::SetLeafKey(k.clone()), Expect::Reject));
+                    edits.push(("leaf-duplicate-key-resigned".into(), InsiderEdit::SetLeafKeyResigned(k.clone()), Expect::Reject));
+                }
+                if let Some(k) = &own_old {
+                    edits.push(("leaf-keeps-old-key-resigned".into(), InsiderEdit::SetLeafKeyResigned(k.clone()), Expect::Reject));
+                }
+            }
+            if has_path && plen >= 1 {
+                edits.push(("path-empty".into(), InsiderEdit::TruncatePath(0), Expect::Reject));
+                edits.push(("path-empty-consistent".into(), InsiderEdit::TruncatePathConsistent(0), Expect::Reject));
+                if plen >= 2 {
+                    edits.push(("path-short".into(), InsiderEdit::TruncatePath(plen - 1), Expect::Reject));
+                    edits.push(("path-short-consistent".into(), InsiderEdit::TruncatePathConsistent(plen - 1), Expect::Reject));
+                }
+                edits.push(("path-long".into(), InsiderEdit::ExtendPath, Expect::Reject));
+                edits.push(("parent-hash-empty".into(), InsiderEdit::SetLeafParentHash(Some(vec![]), 0), Expect::Reject));
+                edits.push(("parent-hash-prefix".into(), InsiderEdit::SetLeafParentHash(None, 16), Expect::Reject));
+                edits.push(("parent-hash-other".into(), InsiderEdit::SetLeafParentHash(Some(self.xrng.bytes(nh)), 0), Expect::Reject));
+                edits.push(("path-fresh-key-first".into(), InsiderEdit::SetPathKey(0, fresh.clone()), Expect::Reject));
+                edits.push(("path-fresh-key-last".into(), InsiderEdit::SetPathKey(plen - 1, fresh), Expect::Reject));
+                if let Some(k) = &foreign {
+                    edits.push(("path-foreign-key".into(), InsiderEdit::SetPathKey(self.xrng.below(plen as u64) as usize, k.clone()), Expect::Reject));
+                }
+                edits.push(("drop-ciphertexts".into(), InsiderEdit::DropCiphertexts(self.xrng.below(plen as u64) as usize), Expect::Either));
+            }
+            self.cover.insert(format!("insider:commit:path={}:nodes={}", has_path as u8, plen.min(3)));
+            for (label, e, x) in edits {
+                match std::panic::catch_unwind(std::panic::AssertUnwindSafe(|| pc.verif_resign_commit(&msg.msg, &e))) {
+                    Ok(Ok(m2)) => vars.push((format!("insider:{label}"), m2, x)),
+                    Ok(Err(err)) => {
+                        self.cover.insert(format!("insider:{label}:not-built:{}", err_class(&err)));
+                    }
+                    Err(_) => {
+                        self.cover.insert(format!("insider:{label}:not-built:panic-in-hook"));
+                    }
+                }
+            }
+        } else {
+            self.cover.insert(format!("insider:none:{}", if member_sender { "no-copy-of-the-committer" } else { "external-commit" }));
+        }
+        match flip_signature_bit(&mut self.xrng, &msg.msg, nh, true) {
+            Some(m2) => vars.push(("signature-bit".into(), m2, Expect::Reject)),
+            None => {
+                self.cover.insert("signature-bit:not-built".into());
+            }
+        }
+        // ---- messages of earlier epochs, for the observer as it is now ------------------------------------------------------
+        let mut stale: Vec<usize> = vec![cmi];
+        let older: Vec<usize> = self.old_hs.iter().copied().filter(|&k| k != cmi && w.msgs[k].epoch < msg.epoch + 1).collect();
+        for _ in 0..2 {
+            if !older.is_empty() {
+                stale.push(*self.xrng.pick(&older));
+            }
+        }
+        for &oi in &chosen {
+            let jitter = self.obs[oi].jitter;
+            let Some((_, pre_snap)) = self.obs[oi].pre.clone() else { continue };
+            let Ok(pre) = self.obs[oi].client.load_group(pre_snap.clone()) else {
+                out.push(fail(format!("observer (jitter {jitter}): the snapshot taken before m{cmi} does not load")));
+                continue;
+            };
+            for (label, m2, x) in &vars {
+                let Ok(mut g) = self.obs[oi].client.load_group(pre_snap.clone()) else { continue };
+                self.probes += 1;
+                match std::panic::catch_unwind(std::panic::AssertUnwindSafe(|| g.process_incoming_message(m2.clone()))) {
+                    Err(_) => out.push(fail(format!("observer (jitter {jitter}) panicked on {label} of m{cmi}"))),
+                    Ok(Ok(_)) => {
+                        self.cover.insert(format!("{label}:accepted"));
+                        if *x == Expect::Reject {
+                            out.push(fail(format!("observer (jitter {jitter}) accepted {label} of the commit m{cmi} ({})", msg.note)));
+                        }
+                        if *x == Expect::Accept && (g.group_context().mls_encode_to_vec().unwrap() != new_ctx || g.export_tree().unwrap_or_default() != new_tree) {
+                            out.push(fail(format!("observer (jitter {jitter}) accepted {label} of m{cmi} but does not hold the members' state")));
+                        }
+                    }
+                    Ok(Err(e)) => {
+                        self.cover.insert(format!("{label}:rejected:{}", err_class(&e)));
+                        if *x == Expect::Accept {
+                            out.push(fail(format!("observer (jitter {jitter}) rejected {label} of m{cmi}, which is the members' commit signed again: {}", err_class(&e))));
+                        }
+                        if !unchanged(&g, &pre) {
+                            out.push(fail(format!("observer (jitter {jitter}) rejected {label} of m{cmi} ({}) but its context, tree or proposal cache changed", err_class(&e))));
+                        }
+                    }
+                }
+            }
+            let cur_snap = self.obs[oi].group.snapshot();
+            let Ok(cur) = self.obs[oi].client.load_group(cur_snap.clone()) else {
+                out.push(fail(format!("observer (jitter {jitter}): the snapshot taken after m{cmi} does not load")));
+                continue;
+            };
+            for &k in &stale {
+                let kind = w.msgs[k].kind;
+                let Ok(mut g) = self.obs[oi].client.load_group(cur_snap.clone()) else { continue };
+                self.probes += 1;
+                match std::panic::catch_unwind(std::panic::AssertUnwindSafe(|| g.process_incoming_message(w.msgs[k].msg.clone()))) {
+                    Err(_) => out.push(fail(format!("observer (jitter {jitter}) panicked on the stale {kind} m{k}"))),
+                    Ok(Ok(_)) => out.push(fail(format!("observer (jitter {jitter}) at epoch {} accepted the {kind} m{k} of epoch {}", cur.group_context().epoch, w.msgs[k].epoch))),
+                    Ok(Err(e)) => {
+                        self.cover.insert(format!("stale-{kind}:rejected:{}", err_class(&e)));
+                        if !unchanged(&g, &cur) {
+                            out.push(fail(format!("observer (jitter {jitter}) rejected the stale {kind} m{k} but its context, tree or proposal cache changed")));
+                        }
+                    }
+                }
+            }
+        }
+        // the copies are of no use after this commit
+        for o in self.obs.iter_mut() {
+            o.pre = None;
         }
         out
     }
@@ -255,13 +494,30 @@ pub fn run(o: &Opts) -> i32 {
     let mut total = Report::default();
     let mut failing = vec![];
     let (mut attached, mut compared, mut restored, mut deliveries) = (0, 0, 0, 0);
+    let mut probes = 0u64;
+    let mut probe_cover: BTreeSet<String> = Default::default();
     // window rows that do not depend on a history: boundaries around every jitter / epoch combination
     let mut foreign: Option<(mls_rs::MlsMessage, u64)> = None;
     for h in 0..n {
         let hseed = seedgen.next();
         let mkc = |s: &Setup, hd: &Handles, id, sk| mk_client(s, hd, id, sk);
         let mke = |j: Option<u64>, cache: bool| ext_client(j, cache);
-        let mut tap = ObsTap { obs: vec![], mk: &mke, qa: &mut qa, old_apps: vec![], foreign: foreign.clone(), attached: 0, compared: 0, restored: 0, deliveries: 0 };
+        let mut tap = ObsTap {
+            obs: vec![],
+            mk: &mke,
+            qa: &mut qa,
+            old_apps: vec![],
+            foreign: foreign.clone(),
+            attached: 0,
+            compared: 0,
+            restored: 0,
+            deliveries: 0,
+            xrng: Rng::new(hseed ^ 0xC16C_16C1_6C16_C16C),
+            prev: Default::default(),
+            old_hs: vec![],
+            probes: 0,
+            cover: Default::default(),
+        };
         let mut treeqa = QA::create(&dir, "c16-tree");
         {
             let mut hist = Hist {
@@ -314,6 +570,8 @@ pub fn run(o: &Opts) -> i32 {
         compared += tap.compared;
         restored += tap.restored;
         deliveries += tap.deliveries;
+        probes += tap.probes;
+        probe_cover.extend(std::mem::take(&mut tap.cover));
     }
     let rows = qa.finish();
     let focus = ["C16"];
@@ -323,6 +581,8 @@ pub fn run(o: &Opts) -> i32 {
     println!("comparisons {compared}");
     println!("restores {restored}");
     println!("deliveries {deliveries}");
+    println!("probes {probes}");
+    println!("probe_cover {}", probe_cover.iter().cloned().collect::<Vec<_>>().join(";"));
     let _ = std::fs::remove_dir_all("/tmp/vharness-scratch-c16");
     0
 }
